@@ -60,9 +60,10 @@ type Scenario struct {
 	FreeSwitch bool          // switching away from a blocked thread costs nothing
 	TickBudget int           // ticks that may be chosen while other environment events are available
 	Horizon    time.Duration // hard virtual-time horizon (default 600s)
-	Idle       time.Duration // idle horizon: no activity for this long means stuck (default 90s)
+	Idle       time.Duration // idle horizon: no activity for this long means stuck (default 40s)
 	MapSites   []string      // substrings of MapRange sites explored under the scheduler
 	NoRun      bool          // do not call Run() (pure API scenarios)
+	AuxAsEnv   bool          // the completion of an auxiliary command is an environment event (else a thread step)
 	Setup      func(w *World)
 	Check      func(w *World) []Violation
 	Note       string
@@ -552,7 +553,7 @@ func (w *World) control(prefix []int) {
 	}
 	w.idleH = sc.Idle // nothing moved for this long: nothing ever will (outcome "stuck")
 	if w.idleH == 0 {
-		w.idleH = 90 * time.Second
+		w.idleH = 40 * time.Second
 	}
 	var running *vrt.Thread
 	idle := 0
